@@ -282,7 +282,7 @@ func main() {
 			for i := 0; i < nRandom/3+8; i++ {
 				vr := r.Fork()
 				v := genValue(vr, f.caps, 1)
-				enc := f.enc(nil, v, &picker{r: vr, first: -1})
+				enc := f.enc(nil, v, &picker{r: vr, first: -1, noIndefStr: true})
 				for j := vr.Range(1, 3); j > 0; j-- {
 					tag := []uint64{0, 1, 2, 23, 24, 55799, 1 << 40}[vr.Intn(7)]
 					enc = append(cbHead(nil, 6, tag, &picker{r: vr, first: -1}), enc...)
